@@ -236,6 +236,10 @@ def body_gen(case):
         idx = [i for i in idx if i != case["k"]]
     B2 = B[idx]
     W2 = None if W is None else W[idx]
+    if op == "duplicate" and W2 is not None:
+        # the repeated target carries other weights than its first occurrence: it is another row, not a copy
+        W2 = W2.copy()
+        W2[-1] = np.roll(W2[-1], 1) * 1.3
     if op == "append":
         B2 = np.vstack([B, np.asarray(case["extra"], dtype=float)[None, :]])
         W2 = None if W is None else np.vstack([W, np.ones((1, sv.m))])
@@ -248,9 +252,20 @@ def body_gen(case):
         got_cmp = (got[0][:n], got[1][:n])
         check(got[0].shape[0] == n + 1, "gen:shape", f"{got[0].shape[0]} result rows for {n + 1} targets")
         compare(proc, sv, B, W, ref, got_cmp, tol, "gen")
+    elif op == "duplicate" and W2 is not None:
+        keep = slice(0, len(idx) - 1)
+        compare(proc, sv, B2[keep], W2[keep], (ref[0][idx[:-1]], ref[1][idx[:-1]]), (got[0][keep], got[1][keep]), tol, "gen")
     else:
         ref_cmp = (ref[0][idx], ref[1][idx])
         compare(proc, sv, B2, W2, ref_cmp, got, tol, "gen")
+    # the last row fitted alone (with its own weights): a row's result depends on nothing else in the call
+    if B2.shape[0] > 1:
+        try:
+            alone = run_proc(proc, sv, np.ascontiguousarray(B2[-1:]), None if W2 is None else np.ascontiguousarray(W2[-1:]), 1, opt)
+        except Exception as e:
+            sfx = ":explicit-solver-unconverged" if (type(e).__name__ == "SolverError" and "solver" in opt) else ""
+            raise Violation(f"gen:reference-exception:{type(e).__name__}{sfx}", f"{proc} on a single row raised {type(e).__name__}: {str(e)[:200]}")
+        compare(proc, sv, B2[-1:], None if W2 is None else W2[-1:], alone, (got[0][-1:], got[1][-1:]), tol, "gen:alone")
     labs = sv.labels() + [proc, f"op:{op}", "W" if W is not None else "noW", f"layout:{case.get('layout')}", f"entry:{entry}"]
     m = B2.shape[0]
     bsi = m if bs == "full" else (1 if bs is None else bs)
